@@ -31,9 +31,9 @@ RULE = ('seeded histories of 1-3 evals over one shared names mapping (prefix eva
 ASSUMPTIONS = ['with a swallowing host callback (attempt) only "no node passes the gate after it fired" and outcome class are demanded',
                'the effect log sees host probe calls, writes to the names mapping and the mutating builtins; other in-place effects (x += list) surface through the names write that follows them']
 REAL = ['smartquery.*']
-STUB = ['host callbacks t / call / attempt']
+STUB = ['host callbacks t / call / attempt (in 30% of the worlds call / attempt run the callback on a fresh thread and join it)']
 REACH_PROBES = ('ast_names_expression', 'ops_lower_bound_checked', 'nested_eval_reentry', 'abort_inside_lambda', 'abort_inside_hof', 'abort_after_effect', 'cross_eval_lambda_called',
-                'swallowing_host', 'default_budget_checked', 'kill_twin_compared', 'full_sweep')
+                'swallowing_host', 'thread_hop_callback', 'default_budget_checked', 'kill_twin_compared', 'full_sweep')
 
 
 def _world(r):
@@ -41,7 +41,7 @@ def _world(r):
     for nm in r.sample(['a', 'b', 'c', 'x', 'y', 'z'], r.randint(1, 4)):
         names[nm] = gen.host_value_spec(r, 2, floats=False)
     names['L'] = [1, 2, 3]
-    return {'names': names, 'host_fns': ['t', 'call', 'attempt', 're']}
+    return {'names': names, 'host_fns': ['t', 'call', 'attempt', 're'], 'thread_hop': r.random() < 0.3}
 
 
 def generate(seed, tier):
@@ -187,6 +187,9 @@ def execute(case, ctx):
         ctx.probe('cross_eval_lambda_called')     # a lambda defined by an earlier eval ran to completion in this one
     if swallow:
         ctx.probe('swallowing_host')
+    if W0.host.hops:
+        ctx.fault('host_callback_on_fresh_thread', W0.host.hops)
+        ctx.probe('thread_hop_callback')
     if W0.host.reentries:
         ctx.fault('reentry', W0.host.reentries)
         ctx.probe('nested_eval_reentry')
